@@ -258,6 +258,7 @@ def r5(ctx):
             i2 = ('bin', 'Add', i, Const(2))
             i3 = ('bin', 'Add', i, Const(3))
             esc = []
+            esc_kinds = set()
             for g in edge_guards(b):
                 t_, pol_ = g.atom()
                 c_ = core(t_)
@@ -267,14 +268,24 @@ def r5(ctx):
                 ge = (c_[1] == 'Ge' and pol_) or (c_[1] == 'Lt' and not pol_)
                 if ne and (has(c_, ('index', ANY, i2)) or has(c_, ('index', ANY, i3))):
                     esc.append((g.block, g.target))
+                    esc_kinds.add('i+2' if has(c_, ('index', ANY, i2)) else 'i+3')
                 elif ge and match(c_[2], i) and match(core(c_[3]), ('bin', 'Sub', Call('Vec::len', ANY), Const(3))):
                     esc.append((g.block, g.target))
+                    esc_kinds.add('bound')
             lt = [g for g in edge_guards(b) if g.atom()[1] is True and match(core(g.atom()[0]), ('bin', 'Lt', i, ('bin', 'Sub', Call('Vec::len', ANY), Const(2)))) and
                   cfg.edge_dominates(b, (g.block, g.target), s.bb)]
             ok3 = bool(lt) and bool(esc) and cfg.must_pass(b, lt[0].target, s.bb, via_edges=esc)
             ctx.require(ok3, b, 'guard|old-next-overlap', 'old next pair is skipped when the next two symbols are another occurrence of the merged pair',
                         'the old-word next pair is decremented even when it lies between two adjacent occurrences of the merged pair (`a b a b`): it is decremented '
                         'twice, its per-word count reaches 0 although an occurrence remains, and the word is skipped when that pair is merged later', s.span)
+            # ... and ONLY then: the pair is decremented as soon as old[i+2] is not the first symbol, or no symbol i+3 exists, or it is not the
+            # second one. Skipping on `old[i+2] == first` alone (`x y x z`) leaves a pair with a positive count that no longer occurs; it is
+            # selected later and the table gets an entry for a pair that does not occur
+            if esc_kinds:
+                ctx.require(esc_kinds >= {'i+2', 'i+3'}, b, 'guard|old-next-only-on-full-occurrence',
+                            'the old next pair is skipped only when a FULL occurrence follows (old[i+2] == first and old[i+3] == second)',
+                            'the old-word next pair is skipped on %s alone: in `x y x z` the pair (y, x) keeps a positive count although it is gone, is merged later '
+                            'and the table gets an entry for a pair that does not occur' % sorted(esc_kinds), s.span)
         else:
             ok1 = any(pol is True and match(t, ('bin', 'Lt', i, ('bin', 'Sub', Call('Vec::len', ANY), Const(1)))) for t, pol in atoms)
             ok2 = any(pol is True and t[0] == 'bin' and t[1] == 'Ne' and has(t, ('bin', 'Add', i, Const(1))) for t, pol in atoms) or \
